@@ -313,9 +313,18 @@ Definition known_holes : list (string * Z * Z) :=
     ("vault", 22, 10);
     ("lend", 22, 10); ("lend", 23, 10); ("lend", 24, 10); ("lend", 37, 10);
     (* 11: further records that no genesis field carries (read from the table only) *)
-    ("asset", 36, 11); ("collector", 9, 11); ("esm", 16, 11); ("esm", 17, 11); ("lend", 81, 11);
-    ("liquidationsV2", 7, 11);
-    ("rewards", 21, 11); ("rewards", 22, 11);
+    ("asset", 36, 11); ("collector", 9, 11); ("lend", 81, 11);
+    (* 17: esm: the price snapshot taken when the shutdown was executed and the per-asset redemption
+           amounts are in no GenesisState field: a chain re-imported in the middle of a cool-off period
+           sets the redemption up without them (reproduced: TestC20Rich world esm) *)
+    ("esm", 16, 17); ("esm", 17, 17);
+    (* 18: rewards: the id counters of the external reward programmes for lockers / vaults are neither
+           exported nor restored although the programmes are: the next programme gets id 1 again and
+           overwrites the live programme 1 (reproduced: TestC20Rich world swap) *)
+    ("rewards", 21, 18); ("rewards", 22, 18);
+    (* 19: liquidationsV2: the app reserve funds transaction records are not exported (reproduced:
+           TestC20Rich worlds lend / fees) *)
+    ("liquidationsV2", 7, 19);
     (* 14: auction V1: biddings and histories are not exported; both auction id counters are taken
            from the LAST exported (lend) dutch auction only *)
     ("auction", 18, 14); ("auction", 21, 14); ("auction", 22, 14);
